@@ -601,7 +601,8 @@ def scripts_for(n, bursts):
 
 def gen_traces(tier, only=None):
     quick = tier == "quick"
-    dflt_bursts = (1, 3) if quick else (1, 2, 3, 4)
+    # budget 3 (T1, T2, T3): bursts 1 and 2 must be absorbed (the 2nd / 3rd attempt is answered -> clean result), 3 exhausts it
+    dflt_bursts = (1, 2, 3) if quick else (1, 2, 3, 4)
     traces, meta = [], {}
     for entry in ops_table():
         cname, factory, ops = entry[:3]
